@@ -20,7 +20,10 @@ from .. import common, fock
 from .c15 import spin_model
 
 ID = "C12"
-RULE = ("Hypothesis draws (registered intermediate name, index tuple with "
+RULE = ("Fixed: every amplitude / density intermediate fully expanded with "
+        "index names from k..o / c..g (the names definitions use for their "
+        "own contracted indices), 3 rotations; Hypothesis draws (registered "
+        "intermediate name, index tuple with "
         "generated admissible names in generated order, fully/once expanded, "
         "model size, seed, clause). value clause: t-amplitudes vs. RSPT "
         "wavefunction coefficients for every index assignment (lower "
@@ -334,7 +337,29 @@ def randomise_offshell(m):
         m.alias[f"t{n}cc"] = f"t{n}"
 
 
+def fixed_cases():
+    """every amplitude / density intermediate fully expanded with index
+    names from the range that definitions use for their own contracted
+    indices (k..o, c..g), three rotations each"""
+    occ_pool, virt_pool = list("lmnko"), list("decfg")
+    out = []
+    for name in [n for n in list(T_AMPL) + list(DENS) if n != "t4_2"]:
+        default = ITM[name].default_idx
+        for rot in range(3):
+            occ = occ_pool[rot:] + occ_pool[:rot]
+            virt = virt_pool[rot:] + virt_pool[:rot]
+            idx = [(occ if d in ALPHABET["occ"] else virt).pop(0)
+                   for d in default]
+            out.append({"name": name, "idx": idx, "fully": True,
+                        "clause": "value",
+                        "size": [3, 3] if len(idx) >= 6 else [2, 2],
+                        "mseed": 100 + rot})
+    return out
+
+
 def run_shard(col, shard, nshards, seed, tier):
+    for case in fixed_cases()[shard::nshards]:
+        col.run(case, run_case)
     drive(strategy(tier), run_case, N_EXAMPLES[tier], seed * 1000 + shard,
           col)
 
